@@ -467,10 +467,21 @@ fn evaluate_round(chk: &mut Check, prop: &str, specs: &[AppSpec], out: &RoundOut
     if prop == "C02" {
         for (k, spec) in specs.iter().enumerate() {
             chk.ev.evaluations += 1;
-            let accepted = if out.combined.accepted() { true } else { out.individual[k].as_ref().is_some_and(|v| v.accepted()) };
+            // (when the application's own verdict was computed - replays, rounds with a rejection - it counts,
+            // even if the nested combination was accepted)
+            let accepted = match out.individual.get(k).and_then(|v| v.as_ref()) {
+                Some(v) => v.accepted(),
+                None => out.combined.accepted(),
+            };
             if !accepted {
                 let v = out.individual[k].as_ref().unwrap();
-                let sig = v.signature();
+                let raw_sig = v.signature();
+                let mut sig = raw_sig.clone();
+                // (recorded finding, never generated: an import followed by an explicit registration of the same
+                // constructor with overrides; the import's copy of the constructor, with the attribute's values, wins)
+                if spec.types.iter().any(|t| t.imported && (t.attr_clone.is_some() || t.attr_life.is_some() || t.specific_eh.is_some())) {
+                    sig = format!("import-then-explicit-registration-with-overrides:{sig}");
+                }
                 if chk.known.open_entry("C02", &format!("rejected:{sig}")).is_some() {
                     *chk.ev.known_hits.entry(format!("rejected:{sig}")).or_insert(0) += 1;
                     continue;
@@ -482,12 +493,12 @@ fn evaluate_round(chk: &mut Check, prop: &str, specs: &[AppSpec], out: &RoundOut
                     chk.ev.violations += 1;
                     continue;
                 }
-                if !rejection_confirmed(spec, &sig) {
+                if !rejection_confirmed(spec, &raw_sig) {
                     chk.ev.label("rejection-not-reproduced-alone(harness concurrency)");
                     continue;
                 }
                 chk.ev.label(&format!("reported:rejected:{sig}"));
-                let (small, v2) = shrink_verdict(spec, &sig);
+                let (small, v2) = shrink_verdict(spec, &raw_sig);
                 let v = v2.as_ref().unwrap_or(v);
                 save_violation(chk, "abiding", &format!("rejected:{sig}"), &format!("a rule-abiding application was rejected ({} shrunk from {} to {} registrations):\n{}", sig, count_regs(spec), count_regs(&small), v.brief()), &small, json!({"k": k}));
             } else {
@@ -1278,6 +1289,7 @@ fn chaos_of(base: &AppSpec, seed: u64) -> AppSpec {
                 v1_flip: false,
                 view_of: None,
                 specific_eh: None,
+                imported: false,
             };
             let a = spec.types.len();
             let (la, lb) = [(Life::Transient, Life::Transient), (Life::Transient, Life::Request), (Life::Request, Life::Transient)][next() % 3];
